@@ -23,11 +23,11 @@ LEVEL = "model_checking"
 
 PROFILE = {
     "quick": dict(mc_tx=["CoopCloseMC_tx.cfg"], mc_neg=[("CoopCloseMC_neg.cfg", {})],
-                  tx_n=70, tx_free=25, neg_n=260, neg_free=120, rbf_n=60),
+                  tx_n=70, tx_free=25, neg_n=260, neg_free=120, rbf_n=40, rbfm_n=120),
     "thorough": dict(mc_tx=["CoopCloseMC_tx.cfg", "CoopCloseMC_tx_thorough.cfg"],
                      mc_neg=[("CoopCloseMC_neg.cfg", {"Step": 1}),
                              ("CoopCloseMC_neg.cfg", {"Lo": 100, "Hi": 6000, "Step": 23, "MaxRounds": 46})],
-                     tx_n=500, tx_free=150, neg_n=1200, neg_free=500, rbf_n=600),
+                     tx_n=500, tx_free=150, neg_n=1200, neg_free=500, rbf_n=300, rbfm_n=1500),
 }
 
 
@@ -217,8 +217,10 @@ def part_neg(ck, prof):
 
 
 def part_rbf(ck, prof):
-    """Coarse RBF-coop coverage: single closing_complete/closing_sig rounds through the real transition functions
-    of both parties (seeded driver only), judged as the spec's RbfRound."""
+    """Coarse RBF-coop coverage: (a) TLC-generated multi-round histories (either closer, fee bumps/drops, the closer
+    moving to another delivery script with its offer) between two real protofsm RbfChanCloser machines over real
+    channels, judged as the spec's RbfOffer (+ ConformScripts, TermsAgree); (b) single rounds through the bare
+    transition functions (seeded driver), judged as RbfRound."""
     # the chancloser package cannot reach lnwallet's unexported fixture capacity: lower it by source overlay
     src = open(os.path.join(core.REPO, "lnwallet", "test_utils.go")).read()
     if src.count("testChannelCapacity float64 = 10") != 1:
@@ -226,35 +228,60 @@ def part_rbf(ck, prof):
     low = os.path.join(ck.out, "test_utils_lowcap.go")
     with open(low, "w") as fo:
         fo.write(src.replace("testChannelCapacity float64 = 10", "testChannelCapacity float64 = 0.01"))
-    res = ck.go_test("./lnwallet/chancloser/", "^TestVerifC17RbfRound$",
-                     ["lnwallet/chancloser/c17_test.go", "lnwallet/chancloser/c17_rbf_test.go"],
-                     env={"VERIF_RBF": prof["rbf_n"]}, name="exec_rbf", timeout=2400,
-                     extra_overlay={"lnwallet/test_utils.go": low})
-    trace = os.path.join(res["dir"], "trace.ndjson")
-    if res["rc"] != 0 or not os.path.exists(trace) or os.path.getsize(trace) == 0:
-        if "panic:" in res["out"]:
-            ck.violation("C17:rbf:panic", "real rbf_coop transition code panicked",
-                         files={"go.out": os.path.join(res["dir"], "go.out")}, text=res["out"][-4000:])
-            return
-        raise Inconclusive("rbf executor failed:\n" + res["out"][-3000:])
+    ck.model_check(SPEC, "CoopCloseMC", "CoopCloseMC_rbf.cfg", "multi-round RBF histories (either closer, fee grid, 3 scripts)",
+                   constants={"RbfDepth": 4 if ck.tier == "quick" else 6}, workers=4, timeout=900)
+    files = ck.generate(SPEC, "CoopCloseGen", "CoopCloseGen_rbf.cfg", prof["rbfm_n"], 20, name="gen_rbf",
+                        prefix="r_", timeout=900)
 
     def describe(hdr, bad):
-        return "RBF round, channel type %s, dust %s, closer %s fee %s" % (
-            hdr.get("type"), hdr.get("dust", {}).get("A"), bad.get("p"), bad.get("x"))
-    recs, ok = judge(ck, trace, "rbf", describe)
-    rounds = [r for r in recs if r["a"] == "Rbf"]
-    ck.cov["evaluations"] += len(rounds)
-    ck.cov["traces_validated_against_impl"] += sum(1 for r in recs if is_reset(r))
+        return "RBF round, channel type %s, dust %s, closer %s fee %s script %s, announced %s" % (
+            hdr.get("type"), hdr.get("dust", {}).get("A"), bad.get("p"), bad.get("x"), bad.get("k"), bad.get("ann"))
+    both = ["lnwallet/chancloser/c17_test.go", "lnwallet/chancloser/c17_rbf_test.go"]
+    runs = [("rbfm", "^TestVerifC17RbfMulti$", {"VERIF_SCHED": os.path.dirname(files[0])}, "RbfM"),
+            ("rbf", "^TestVerifC17RbfRound$", {"VERIF_RBF": prof["rbf_n"]}, "Rbf")]
     outcomes = {}
-    for r in rounds:
-        k = "%s/%s outputs=%d" % (r["res"]["A"], r["res"]["B"], r["nout"]["A"])
-        outcomes[k] = outcomes.get(k, 0) + 1
+    for kind, test, env, act in runs:
+        res = ck.go_test("./lnwallet/chancloser/", test, both, env=env, name="exec_" + kind, timeout=2400,
+                         extra_overlay={"lnwallet/test_utils.go": low})
+        trace = os.path.join(res["dir"], "trace.ndjson")
+        if res["rc"] != 0 or not os.path.exists(trace) or os.path.getsize(trace) == 0:
+            if "panic:" in res["out"]:
+                ck.violation("C17:%s:panic" % kind, "real rbf_coop code panicked",
+                             files={"go.out": os.path.join(res["dir"], "go.out")}, text=res["out"][-4000:])
+                return
+            raise Inconclusive("rbf executor %s failed:\n%s" % (test, res["out"][-3000:]))
+        recs, ok = judge(ck, trace, kind, describe)
+        rounds = [r for r in recs if r["a"] == act]
+        ck.cov["evaluations"] += len(rounds)
+        ck.cov["traces_validated_against_impl"] += sum(1 for r in recs if is_reset(r))
+        for r in rounds:
+            k = "%s: %s/%s outputs=%d" % (act, r["res"]["A"], r["res"]["B"], r["nout"]["A"])
+            outcomes[k] = outcomes.get(k, 0) + 1
+        ck.cov["distinct_nontrivial"] += len({core.sha(str((r["p"], r["x"], r.get("k"), r["val"], r["res"]))) for r in rounds})
+        if kind == "rbfm":
+            # rounds that follow a delivery-script change of the OTHER party (the history class of seeded defect c17_3)
+            n, cur, changed = 0, {}, None
+            for r in recs:
+                if is_reset(r):
+                    cur, done_local = {"A": 0, "B": 0}, set()
+                elif r["a"] == "RbfM" and r["res"]["A"] == "ok":
+                    if r["p"] in done_local and any(cur[q] != 0 for q in cur if q != r["p"]):
+                        n += 1
+                    cur[r["p"]] = r["k"]
+                    done_local.add(r["p"])
+            ck.cov["rbf_bumps_after_peer_script_change"] = n
+            ck.cov["samples"].append({"rbf_history": [
+                {k: r[k] for k in ("a", "p", "x", "k", "res", "ann", "sidx", "txeq") if k in r} for r in recs[1:6]]})
+        if ok and not ck.violations:
+            if kind == "rbfm":
+                control(ck, recs, "RBF history: closing_complete recorded with a stale closee script",
+                        lambda r: r["a"] == "RbfM" and r["res"]["A"] == "ok",
+                        lambda r: r["ann"].__setitem__("cc_closee", (r["ann"]["cc_closee"] + 1) % 3))
+            else:
+                control(ck, recs, "RBF round: closee's transaction recorded with a different output value",
+                        lambda r: r["a"] == "Rbf" and r["res"]["A"] == "ok" and r["nout"]["A"] == 2,
+                        lambda r: r["val"]["B"].__setitem__("A", r["val"]["B"]["A"] - 1))
     ck.cov["rbf_round_outcomes"] = outcomes
-    ck.cov["distinct_nontrivial"] += len({core.sha(str((r["p"], r["x"], r["val"], r["res"]))) for r in rounds})
-    if ok and not ck.violations:
-        control(ck, recs, "RBF round: closee's transaction recorded with a different output value",
-                lambda r: r["a"] == "Rbf" and r["res"]["A"] == "ok" and r["nout"]["A"] == 2,
-                lambda r: r["val"]["B"].__setitem__("A", r["val"]["B"]["A"] - 1))
 
 
 def run(ck):
@@ -286,5 +313,5 @@ def run(ck):
         "channel is quiescent (no HTLCs) and both parties' local commitments describe the same state - checked on every recorded state (ConformSynced), produced by real add/settle/update_fee round trips or by writing the split into both channel states",
         "the fixture's initiator (alice) always plays the opener; 'both roles' = opener's dust limit larger/smaller, opener on the small side or not, either party paying (WithCustomPayer), either party asking for the close",
         "no aux/custom-channel extra outputs, no OP_RETURN delivery scripts",
-        "RBF-coop flow, coarse: (a) its close options as they reach lnwallet (closer pays via WithCustomPayer, custom sequence, lock time 0) in part I for all 8 channel types; (b) single closing_complete/closing_sig rounds through the real LocalCloseStart/RemoteCloseStart/LocalOfferSent.ProcessEvent of both parties on non-taproot channels, judged as the spec's RbfRound (closer's pre-check on its balance without commit-fee credit, then the part I transaction). Not modelled: protofsm event loop, shutdown/flush states, the closer_output_only/closee_output_only field selection, taproot nonce handling, multi-round fee monotonicity",
+        "RBF-coop flow, coarse: (a) its close options as they reach lnwallet (closer pays via WithCustomPayer, custom sequence, lock time 0) in part I for all 8 channel types; (b) TLC-generated multi-round histories between two real protofsm RbfChanCloser machines (started in ClosingNegotiation, real non-taproot channels, adapters forwarding closing_complete/closing_sig): rounds by either side, fee bumps and drops, the closer moving to another delivery script with its offer (the harness plays a peer that can change its address by rewriting that machine's own LocalDeliveryScript in the shared close terms); judged as RbfOffer: closer's pre-check, the part I transaction, announced closer/closee scripts and the scripts every output pays = current close terms (ConformScripts, TermsAgree); (c) single rounds through the bare transition functions. Not modelled: shutdown/flush states, closer_output_only/closee_output_only field selection, taproot nonce handling, fee monotonicity, message reordering between rounds",
         "negotiation: honest peers, in-order delivery, one message in flight"]
